@@ -386,10 +386,16 @@ def make_check(tier):
             add("x64", prefix, "two_rev", 1)
         if not quick or prefix in ("none", "start", "cfa"):
             add("x64", prefix, "one", 2, 7200)
+        # the deepest explorations are partitioned into one scenario per first directive (core.with_preset), so that
+        # each is about as large as a "+1"/"+2" scenario and they run in parallel
         if not quick and prefix in ("none", "start", "cfa", "closed"):
-            add("x64", prefix, "two", 2, 7200)
+            for k, kind in enumerate(ALPHABET):
+                chk.add("eval/x64/%s/two/+2/first=%s" % (prefix, kind), core.with_preset(h_eval, {"k0": k}),
+                        params=dict(isa="x64", prefix=prefix, extra=2, layout="two"), timeout=7200)
         if not quick and prefix in ("none", "start"):
-            add("x64", prefix, "one", 3, 20000)
+            for k, kind in enumerate(ALPHABET):
+                chk.add("eval/x64/%s/one/+3/first=%s" % (prefix, kind), core.with_preset(h_eval, {"k0": k}),
+                        params=dict(isa="x64", prefix=prefix, extra=3, layout="one"), timeout=7200)
         for isa in ("arm64", "mips32"):
             if not quick or prefix in ("start", "personality", "cfa_expr"):
                 add(isa, prefix, "two", 1)
